@@ -418,6 +418,14 @@ def HW.set (w : HW) (k v : Bytes) : HW := { w with header := (k, v) :: w.header.
 /-- `w.Write(data)` -/
 def HW.write (w : HW) (b : Bytes) : HW := { w with log := w.log ++ [.write b] }
 
+/-- an argument of `BuildURL` / `Route.ToURL` as its type switch sees it: a `*BuildRequestURL` (β is the builder record),
+    a map `M` (its pairs, values already as the text `goutil.String` gives them), or a value of any other type -/
+inductive UArg (β : Type)
+  | builder (b : β)
+  | m (kv : KV)
+  | other (id : Nat)
+  deriving Repr, Inhabited
+
 /-- which field of the context an adapter hands to the wrapped std handler -/
 inductive CArg
   | resp   -- c.Resp
